@@ -43,6 +43,7 @@ type uSubRes struct {
 }
 
 type c18Msg struct {
+	ReuseBuilder bool   `json:"reuse_builder_values,omitempty"` // one UEPolicyPart / Instruction / Result value reused for all parts (a builder variable)
 	Kind      string    `json:"kind"` // command | complete | reject | list | result-list
 	PTI       uint8     `json:"pti"`
 	Subs      []uSub    `json:"sublists,omitempty"`
@@ -119,8 +120,11 @@ func refSubResults(subs []uSubRes) []byte {
 }
 
 // library values built through the API only
-func libSubLists(subs []uSub) (uePolicyContainer.UEPolicySectionManagementListContent, error) {
+func libSubLists(subs []uSub, reuse ...bool) (uePolicyContainer.UEPolicySectionManagementListContent, error) {
 	var list uePolicyContainer.UEPolicySectionManagementListContent
+	// with reuse, one part value and one instruction value serve as builder variables for everything that is appended
+	var sharedPart uePolicyContainer.UEPolicyPart
+	re := len(reuse) > 0 && reuse[0]
 	for si, s := range subs {
 		var sub uePolicyContainer.UEPolicySectionManagementSubList
 		if err := sub.SetPlmnDigit(s.Mcc, s.Mnc); err != nil {
@@ -130,10 +134,15 @@ func libSubLists(subs []uSub) (uePolicyContainer.UEPolicySectionManagementListCo
 			var ins uePolicyContainer.Instruction
 			ins.SetUpsc(in.Upsc)
 			for pi, p := range in.Parts {
-				var part uePolicyContainer.UEPolicyPart
+				var fresh uePolicyContainer.UEPolicyPart
+				part := &fresh
+				if re {
+					part = &sharedPart
+					part.SetLen(0)
+				}
 				part.UEPolicyPartType.SetPartType(p.Type)
 				part.SetPartContent(partContent(p, si*100+ii*10+pi))
-				ins.UEPolicySectionContents.AppendUEPolicyPart(&part)
+				ins.UEPolicySectionContents.AppendUEPolicyPart(part)
 			}
 			sub.UEPolicySectionManagementSubListContents.AppendInstruction(ins)
 		}
@@ -192,7 +201,7 @@ func c18MsgExec(c *core.Ctx, in c18Msg) {
 	pi := core.Try(func() {
 		switch in.Kind {
 		case "command", "list":
-			list, e := libSubLists(in.Subs)
+			list, e := libSubLists(in.Subs, in.ReuseBuilder)
 			if e != nil {
 				err = e
 				return
@@ -545,7 +554,7 @@ func c18Run(c *core.Ctx) {
 		}
 	}
 	// round trips: 0..2 sublists x 0..2 instructions x 0..2 parts (content lengths 0, 1, 300) ± classmark
-	partShapes := [][]uPart{{}, {{1, 0}}, {{1, 1}}, {{2, 300}}, {{1, 1}, {4, 0}}, {{3, 300}, {1, 2}}}
+	partShapes := [][]uPart{{}, {{1, 0}}, {{1, 1}}, {{2, 300}}, {{1, 1}, {4, 0}}, {{3, 300}, {1, 2}}, {{1, 8}, {2, 5}}, {{1, 5}, {2, 5}, {3, 9}}}
 	var insShapes [][]uIns
 	insShapes = append(insShapes, []uIns{})
 	for _, p := range partShapes {
@@ -567,6 +576,7 @@ func c18Run(c *core.Ctx) {
 				msg(c18Msg{Kind: "command", PTI: byte(i1), Subs: []uSub{{pl[0], pl[1], is1}}, Classmark: cm})
 				if cm < 0 {
 					msg(c18Msg{Kind: "list", Subs: []uSub{{pl[0], pl[1], is1}}, Classmark: -1})
+					msg(c18Msg{Kind: "list", Subs: []uSub{{pl[0], pl[1], is1}}, Classmark: -1, ReuseBuilder: true})
 					rin := c18Msg{Kind: "list-reuse", Subs: []uSub{{pl[0], pl[1], is1}}, Classmark: -1}
 					if c.Begin("reuse", "UePolicyContainer", rin) {
 						c18ReuseExec(c, rin)
@@ -741,7 +751,7 @@ func init() {
 			if tier == "thorough" {
 				l = "7"
 			}
-			return "totality: every byte string of length <= " + l + " over a 12-value alphabet into the six parsers (delivery message, section-management list content, result content, sub-list contents, section contents, sub-result contents), all 256 message types, and the <=2-mutation neighbourhood of valid encodings of every message kind; round trip: command messages with 0..2 sublists x 0..2 instructions x 0..2 policy parts (content lengths 0,1,2,300) with and without classmark, complete with every PTI, reject with 0..2 sub-results x 0..2 results, nested lists alone, all built through the API only, and lists serialised again after their part contents were replaced through the API; PLMN: every MCC 100..999 x every MNC 10..999. Oracle: no panic; encoded bytes equal a reference encoder (every length field = length of what follows, PLMN per TS 24.008 10.5.1.3 as produced by nasConvert.PlmnIDToNas); decode(encode(m)) yields the same structure."
+			return "totality: every byte string of length <= " + l + " over a 12-value alphabet into the six parsers (delivery message, section-management list content, result content, sub-list contents, section contents, sub-result contents), all 256 message types, and the <=2-mutation neighbourhood of valid encodings of every message kind; round trip: command messages with 0..2 sublists x 0..2 instructions x 0..2 policy parts (content lengths 0,1,2,300) with and without classmark, complete with every PTI, reject with 0..2 sub-results x 0..2 results, nested lists alone, all built through the API only, lists serialised again after their part contents were replaced through the API, and lists built with one reused builder value for all parts; PLMN: every MCC 100..999 x every MNC 10..999. Oracle: no panic; encoded bytes equal a reference encoder (every length field = length of what follows, PLMN per TS 24.008 10.5.1.3 as produced by nasConvert.PlmnIDToNas); decode(encode(m)) yields the same structure."
 		},
 		Assumptions: []string{"result causes are normalised to 'protocol error, unspecified' by the encoder itself"},
 		Finish:      func(m *core.Merged, cov map[string]any) { cov["distinct_nontrivial"] = m.Counters["evaluations"] },
